@@ -11,7 +11,7 @@
      LinearModel ctor, getNoiseSample    (LinearModel.cpp:21-60)
      SimulatedStateModel ctor, bufferData, getData, setProperty
                                          (SimulatedStateModel.cpp:16-75)
-     SimulatedLinearSensor::freeze, measure (SimulatedLinearSensor.cpp:77-103)
+     SimulatedLinearSensor ctor (descriptions), freeze, measure (SimulatedLinearSensor.cpp:17-103)
      InitSurveillanceAreaGrid::initialize   (InitSurveillanceAreaGrid.cpp:44-63)
    Polymorphic in the arithmetic (MatOps).  The standard-normal draws of the
    seeded generators are an INPUT of the model (a list consumed front to back,
@@ -40,6 +40,14 @@ Inductive sim_err := ErrSimEmpty.
 (* calls on a SimulatedStateModel / a SimulatedLinearSensor *)
 Inductive sim_op := SimBuffer | SimReset | SimOther.      (* bufferData(), setProperty("reset"), setProperty(<other>) *)
 Inductive sens_op := SensFreeze | SensReset | SensOther.  (* freeze(), reset / other property of the simulated state model *)
+
+(* VectorDescription with Euler-type circular components: component counts; every size
+   accessor is then the component count, total_size their sum *)
+Record vdesc := mkDesc { d_lin : nat; d_circ : nat; d_noise : nat }.
+Definition desc_total (v : vdesc) : nat := d_lin v + d_circ v + d_noise v.
+Definition desc_linear_size (v : vdesc) : nat := d_lin v.
+(* add_noise_components *)
+Definition desc_add_noise (v : vdesc) (k : nat) : vdesc := mkDesc (d_lin v) (d_circ v) (d_noise v + k).
 
 Section Models.
 Variable O : MatOps.
@@ -254,6 +262,38 @@ Fixpoint sensor_run (H : M O m d) (LR : M O m m) (st : sens_state) (ops : list s
   end.
 End Sim.
 
+(* ---------------------------------------------------------------- sensor descriptions *)
+
+(* the rest of SimulatedLinearSensor's constructor (SimulatedLinearSensor.cpp:29-66):
+   input description = state description of the simulated model + one noise component per
+   row of R; every row i of H_ counts as linear or circular according to where its entry of
+   largest magnitude sits: H_.row(i).array().abs().maxCoeff(&state_index) — Eigen's visitor
+   keeps the FIRST maximum (it updates on strictly larger values only) *)
+Definition sabs1 (x : t) : t := if sltb S x (s0 S) then sopp S x else x.
+
+Fixpoint argmax_from (f : nat -> t) (j k best : nat) (bestv : t) : nat :=
+  match k with
+  | 0 => best
+  | Datatypes.S k' =>
+      if sltb S bestv (f j) then argmax_from f (Datatypes.S j) k' j (f j)
+      else argmax_from f (Datatypes.S j) k' best bestv
+  end.
+
+Definition row_argmax_abs {m n} (H : M O m n) (i : nat) : nat :=
+  match n with
+  | 0 => 0
+  | Datatypes.S k => argmax_from (fun j => sabs1 (mget H i j)) 1 k 0 (sabs1 (mget H i 0))
+  end.
+
+(* (input_description_, measurement_description_) *)
+Definition sensor_descriptions {m n} (H : M O m n) (state_desc : vdesc) (noise_rows : nat) : vdesc * vdesc :=
+  let input := desc_add_noise state_desc noise_rows in
+  let counts :=
+    fold_left (fun acc i => if row_argmax_abs H i <? desc_linear_size input
+                            then (Datatypes.S (fst acc), snd acc) else (fst acc, Datatypes.S (snd acc)))
+              (seq 0 m) (0, 0) in
+  (input, mkDesc (fst counts) (snd counts) 0).
+
 (* ---------------------------------------------------------------- grid initialiser *)
 
 (* particles.state().col(k) << v 0, v 1, v 2, v 3 *)
@@ -302,5 +342,6 @@ Arguments sim_ctor {_ d}. Arguments sim_step {_ d}. Arguments sim_run {_ d}.
 Arguments sens_state {_}. Arguments mkSens {_ d m}.
 Arguments sens_sim {_ d m}. Arguments sens_zs {_ d m}. Arguments sens_meas {_ d m}.
 Arguments sensor_freeze {_ d m}. Arguments sensor_step {_ d m}. Arguments sensor_run {_ d m}.
+Arguments sabs1 {_}. Arguments argmax_from {_}. Arguments row_argmax_abs {_ m n}. Arguments sensor_descriptions {_ m n}.
 Arguments set_col {_ r c}. Arguments grid_coord {_}. Arguments grid_point {_}.
 Arguments grid_initialize {_} xinf xsup yinf ysup nx ny {np}.
